@@ -204,6 +204,11 @@ func runC13(c *core.Ctx) {
 	if strings.Contains(string(w.schema), `".."`) || strings.Contains(string(w.schema), `"../`) || strings.Contains(string(w.schema), "ancestor::") {
 		c.Inc("schemas_with_ancestor_paths")
 	}
+	if r.Chance(1, 2) {
+		// the all-caches-on run starts with pools and caches that somebody else's (XML, JSON) records have just been through
+		omni.RunForeign()
+		c.Inc("baseline_runs_after_foreign_transforms")
+	}
 	idBefore := idr.VerifNodeIDCounter()
 	k0, k5 := c13Run(c, s, w, nil, true)
 	c.Count("node_ids_consumed", idr.VerifNodeIDCounter()-idBefore)
